@@ -21,6 +21,8 @@ RULE = (
     "entry starts exactly at s."
 )
 ASSUMPTIONS = [
+    "split with an insertion point less than 4 ulp(end+d) before the straddled interval's end is skipped: the right-hand piece "
+    "is not representable after the shift",
     "reference model vlib/models.py:insert_space_* is the reading of the statement",
     "inverse compared after merging adjacent same-labelled pieces (label-at-every-time function), 8 ulp on decimals",
 ]
@@ -97,6 +99,14 @@ def run_tier_case(case):
     is_int = spec["type"] == "interval"
     what = f"insertSpace({s!r},{d!r},{mode})"
     m = _model(spec, s, d, mode)
+    if is_int and mode == "split":
+        import math
+
+        # a right-hand piece narrower than the floating-point resolution at its shifted position cannot be
+        # represented by any implementation (s+d and end+d round to the same double): outside the domain
+        for e in spec["entries"]:
+            if e[0] < s < e[1] and (e[1] - s) <= 4 * math.ulp(e[1] + d):
+                return {"classes": ["skipped_unrepresentable_split_piece"], "nontrivial": False}
     try:
         with quiet():
             res = tier.insertSpace(s, d, mode)
@@ -212,6 +222,8 @@ def enum_point(tier, shard, nshards):
 def s_for(draw, entries_list, style, minT, maxT):
     bounds = sorted({t for ents in entries_list for en in ents for t in en[:-1]})
     cands = list(bounds) + [(x + y) / 2 for x, y in zip(bounds, bounds[1:])] + [minT, maxT]
+    if style != "grid" and bounds:
+        cands = cands + [v for b_ in bounds[:4] for v in gen.near_values(b_)]
     cands = [c for c in cands if minT <= c <= maxT]
     mids = [(x + y) / 2 for x, y in zip(bounds, bounds[1:])] or cands
     return draw(st.one_of(st.sampled_from(cands), st.sampled_from(mids),
